@@ -28,8 +28,10 @@ WholeStackKeys == {<<87>>,          \* W   wrap the stack
                    <<33>>,          \* !   stack length
                    <<8222>>,        \* „   rotate left
                    <<8223>>,        \* ‟   rotate right
-                   <<558>>,         \* Ȯ   over
-                   <<8224>>}        \* †   call
+                   <<558>>}         \* Ȯ   over
+(* † (call) reaches further down only when it calls a FUNCTION (which pops its own arity); on a number, a
+   string or a list it is an ordinary element of arity 1 with one result -- no function is ever offered here *)
+CallKey == <<8224>>
 WrapTopN == <<168, 7815>>            \* ¨ẇ  wraps the top n entries: it may touch its argument n and n more
 VyxalExec == <<278>>                 \* Ė on a string runs a program on this stack
 
@@ -43,7 +45,7 @@ Touched(t) ==
       [] t.m = m_tilde -> IF t.ka >= 2 THEN t.ka ELSE 1
       [] t.m = m_sz -> t.ka + 1
       [] t.m \in {m_fhook, m_dtail} -> 1
-      [] t.m \in {m_para, m_paral} -> Max2(t.ka, t.kb)
+      [] t.m \in {m_para, m_paral} -> t.kb          \* the first element works on a COPY of the stack
       [] OTHER -> 0                    \* lambda-forming modifiers only push a function
 
 Prop_C09(t) ==
@@ -52,11 +54,27 @@ Prop_C09(t) ==
                       /\ SubSeq(t.ids1, 1, keep) = SubSeq(t.ids0, 1, keep)
                       /\ SubSeq(t.vals1, 1, keep) = SubSeq(t.vals0, 1, keep) )
 
+(* "... and replaces the top k by the element's results": how many entries the construct leaves, where the
+   templates fix it -- process_element's template (pop the arity, push ONE result; t.pe), call on a
+   non-function, and the modifiers whose own template pushes a fixed number of results *)
+ResultCountKnown(t) ==
+    \/ t.m = 0 /\ (t.pe \/ t.key = CallKey)
+    \/ t.m \in {m_v, m_fhook, m_dtail, m_para, m_paral}
+ExpectedLen(t) ==
+    CASE t.m = 0 /\ t.key = CallKey -> Len(t.ids0)
+      [] t.m = 0 -> Len(t.ids0) - t.ta + 1
+      [] t.m = m_v -> Len(t.ids0) - t.ta + 1
+      [] t.m \in {m_fhook, m_dtail} -> Len(t.ids0)
+      [] t.m = m_para -> Len(t.ids0) - t.tb + 2
+      [] OTHER -> Len(t.ids0) - t.tb + 1
+Prop_C09_Results(t) == ResultCountKnown(t) => Len(t.ids1) = ExpectedLen(t)
+
 Verdict(t) ==
     IF t.key \in WholeStackKeys \/ (t.key = VyxalExec /\ t.strarg) \/ (t.m # 0 /\ t.opkey \in WholeStackKeys \cup {WrapTopN})
     THEN "skip:whole-stack-operation"
     ELSE IF t.raised # "" THEN "skip:inapplicable-" \o t.raised
     ELSE IF ~Prop_C09(t) THEN "violation:entries-below-changed"
+    ELSE IF ~Prop_C09_Results(t) THEN "violation:number-of-results"
     ELSE "ok"
 
 Init == tid \in 1..Len(Batch) /\ phase = "start"
